@@ -245,14 +245,14 @@ CONFIG = {
         "content.Successors / manifestutil.Subject / descriptor.IsManifest are parameters of the theorems (succs, subj, mf with succs k = [] for non-manifests, bad k = undecodable manifest bytes: Push refuses them and, repaired, leaves no blob); SHA-2, the verification of pushed bytes (C05) and file contents are not modelled: a blob file is identified with its node, so 'Exists/Fetch equal after reopen' is true by construction in the model for the directory (same files) and rests on Model/TarFS.v + the harness for archives",
         "graph.Memory is represented by its node set, Predecessors derived as {p in nodes | n in succs p} (graph.Memory's representation invariant, C07); IndexAll's per-call tracker is modelled as 'skip nodes already in the graph'; obs_equiv is a snapshot equivalence of the listed observables, not a bisimulation (the running graph keeps unreferenced pushed blobs as nodes, invisible to them)",
         "totalisation: IndexAll, the subject-chain walk, Delete's queue and the GC rounds run on fuel derived from the universe bound N, Predecessors enumerates 0..N-1; the reopen theorems hold for every N; C08_fuel_* prove that on universes whose links point to smaller ids and whose ids stay below N (what the harness generates) IndexAll, the subject walk and Delete's queue loop never exhaust their fuel; and the rounds of GC's referrer pass never exhaust S |refMap| (C08_fuel_gc_rounds_sufficient)",
-        "concurrency (Model/OciConc.v: two small systems; Model/OciLocks.v: Tag/Untag/SaveIndex/Push/Delete together under both locks, safety for every program accepted by the lock-discipline checker [check], the real programs assembled from the generated call sequences; GC is the program lock / gcIndex / saveIndex / sweep with an arbitrary kept node set per call (what gcIndex keeps is the sequential model's business); Delete's AutoGC cascade is not among these programs): operations are interleaved at the level of resolver calls (each atomic under resolver.Memory's lock), indexLock and the store RWMutex; sync.Mutex / sync.RWMutex are modelled as 'enabled when free' (no fairness, no writer preference); Delete/GC are one exclusive block in system 1 and a four-step program on ONE blob in system 2; that a concurrent batch of whole operations behaves like SOME sequential order is not a theorem: the extracted sequential model must accept every batch the harness runs (results + live + reopened state); two concurrent Push of the same content and SaveIndex racing a Tag with AutoSaveIndex off are not generated (both succeed / write an intermediate state; neither violates C08)",
+        "concurrency (Model/OciConc.v: two small systems; Model/OciLocks.v: Tag/Untag/SaveIndex/Push/Delete together under both locks, safety for every program accepted by the lock-discipline checker [check], the real programs assembled from the generated call sequences; GC is the program lock / gcIndex / saveIndex / sweep with an arbitrary kept node set per call; C08_gc_effect shows that the sequential gcIndex + sweep is such a step with the rebuilt graph as kept set (blobs exactly; references: none outside the graph, no tag and no digest reference of a kept node lost); Delete with AutoGC is the cascade program: one exclusive lock around delete() for the target, its referrers and danglings, any queue; which nodes the queue holds is the sequential model's business; that the graph knows a dangling manifest as stored content is an Exists step there): operations are interleaved at the level of resolver calls (each atomic under resolver.Memory's lock), indexLock and the store RWMutex; sync.Mutex / sync.RWMutex are modelled as 'enabled when free' (no fairness, no writer preference); Delete/GC are one exclusive block in system 1 and a four-step program on ONE blob in system 2; that a concurrent batch of whole operations behaves like SOME sequential order is not a theorem: the extracted sequential model must accept every batch the harness runs (results + live + reopened state); two concurrent Push of the same content and SaveIndex racing a Tag with AutoSaveIndex off are not generated (both succeed / write an intermediate state; neither violates C08)",
         "Go map iteration orders (saveIndex two passes, gcIndex tagged pass and every round of the referrer pass, per Delete queue iteration the Referrers and Remove sets) are explicit choice lists and the theorems quantify over all of them. That the STATES reached by Delete cascades and the GC referrer pass do not depend on the order is C09's theorem, not restated here: the correspondence evaluates the model under two unrelated order streams per history and reports a difference between them (or with Go's own random order) as a failure",
         "AutoSaveIndex is fixed per history (AutoGC may be toggled: OSetAutoGC); with AutoSaveIndex off index.json is only claimed valid/current right after SaveIndex - between saves it may name deleted blobs, as the property's parenthesis allows",
         "encoding/json round trip of index.json / oci-layout and os file operations are exercised by the harness on real directories, not proved; internal/fs/tarfs is modelled at the level of cleaned names and entry kinds (Model/TarFS.v: last entry of a cleaned name wins, regular and sparse members open to their content, other kinds unsupported) and tied by unit cases through a verifhooks re-export; path.Clean is a parameter; archive/tar framing is exercised on eleven archive styles (six written with archive/tar, GNU tar default / PAX sparse 1.0 / PAX sparse 0.1 / old GNU sparse, bsdtar), members of 8 GiB and more are not generated",
         "the model follows Delete / gcIndex / Tag / resolver.Memory.Tag of the frozen /repo main: C09's fixes (queue-once, pending/held referrers counted by links, referrer pass with subject-manifest test), C07's digest reference for a manifest that loses its last predecessor, C10's removal of references by digest, Tag indexing a manifest before tagging it; the referrer pass as found (GC hang, F1) is kept behind fixF1=false with result RHang (C08_gc_hang_prefix); os.ReadDir/os.Remove errors of GC's sweep are not modelled; files under blobs/ that are no content are modelled by kind (gc_sweeps_stray) outside the store record; blob files written behind the store's back (OInject) are restricted to non-manifest content in the theorems; Push always passes the bare node descriptor (annotations on the pushed descriptor are not generated)",
     ],
     "level_text": "Coq theorems over all histories of Push/Tag/Untag/Delete/GC/SaveIndex/read-write reopen/AutoGC assignment, all universes (DAG, media types, undecodable manifests), all reference names the store accepts and all Go map iteration orders: with AutoSaveIndex (at every quiescent point) or right after SaveIndex the store reloaded from index.json + blobs answers exactly like the running store (tag list incl. Tags(last), tag->descriptor up to the ref-name annotation, Resolve by digest, Exists/Fetch, Predecessors) and every index.json entry points to a stored blob; proved as a store invariant + 'index.json is an order-independent projection of the resolver map' + load-after-save identity, plus 'an archive of the directory gives the os.DirFS view' for tarfs; about executable models that are extracted and run against content/oci and internal/fs/tarfs on random histories over real directories reopened four ways (oci.New, NewFromFS(os.DirFS), NewFromFS(fstest.MapFS), NewFromTar of archives in eleven styles incl. GNU tar / bsdtar sparse members), with an independent reopen/layout/predecessor oracle",
-    "level_note": "full for the repaired code (six fix: commits of this property: GC saves index.json; GC keeps digest references; tarfs reads data in place and decodes sparse members; Push leaves no blob it cannot index; Tag refuses digests of other content and invalid UTF-8) plus C09's Delete/gcIndex/resolver fixes; each pre-fix behaviour has a refuted witness or a corpus replay. ORACLE-ONLY clauses (no theorem, the model has no bytes/sizes/JSON): 'oci-layout and index.json parse', 'every blob file is named by the digest of its bytes', 'of the recorded size' (conditional on the size passed to Tag, see assumptions), Fetch returning the bytes, no leftover temporary files, opening does not rewrite index.json. Exists/Fetch equality is by construction in the store model; the tar clause rests on C08_tar_view (abstract names and kinds) + the harness. The three ways of reopening are one model function (loadIndex over an fs.FS): oci.New only adds file creation on a missing layout, NewFromTar adds tarfs. Concurrency: every schedule of index-saving operations leaves index.json current at quiescence and every schedule of Tag/Delete/Push leaves only references to existing content, for the lock placement the translator reads from the sources (moving a lock call breaks C08_locks_as_in_the_sources); the harness runs concurrent batches with a watchdog. Thorough tier re-evaluates 200 sampled histories inside Coq (vm_compute) against the extracted runner",
+    "level_note": "full for the repaired code (six fix: commits of this property: GC saves index.json; GC keeps digest references; tarfs reads data in place and decodes sparse members; Push leaves no blob it cannot index; Tag refuses digests of other content and invalid UTF-8) plus C09's Delete/gcIndex/resolver fixes; each pre-fix behaviour has a refuted witness or a corpus replay. ORACLE-ONLY clauses (no theorem, the model has no bytes/sizes/JSON): 'oci-layout and index.json parse', 'every blob file is named by the digest of its bytes', 'of the recorded size' (conditional on the size passed to Tag, see assumptions), Fetch returning the bytes, no leftover temporary files, opening does not rewrite index.json. Exists/Fetch equality is by construction in the store model; the tar clause rests on C08_tar_view (abstract names and kinds) + the harness. The three ways of reopening are one model function (loadIndex over an fs.FS): oci.New only adds file creation on a missing layout, NewFromTar adds tarfs. Concurrency: every schedule of index-saving operations leaves index.json current at quiescence and every schedule of Tag/Delete/Push leaves only references to existing content, for the lock placement the translator reads from the sources (moving a lock call breaks C08_locks_as_in_the_sources; changing the condition under which the index is saved, the digest entry is registered or a manifest is indexed breaks C08_guards_as_in_the_sources); the harness runs concurrent batches with a watchdog. Thorough tier re-evaluates 200 sampled histories inside Coq (vm_compute) against the extracted runner",
     "technique": "machine-checked proof in Coq (store state machine, invariant over all histories and map iteration orders, load-after-save observational identity) + model/implementation correspondence on random histories + independent reopen/layout oracle",
     "explanation": "invariant (every stored manifest is referenced by digest and indexed; every reference points to stored content; index.json is a projection of the resolver map) proved for every history and map order; reopen = loadIndex of that projection proved observationally equal; model extracted and compared with content/oci on random histories with three-way reopening; independent oracle compares original and reopened stores, checks predecessors against the generator's edges and validates the raw directory",
 }
